@@ -11,135 +11,18 @@ import (
 	"math"
 	"os"
 	"strings"
-	"sync"
-	"sync/atomic"
-	"time"
 
 	proto "github.com/kubewharf/kubebrain-client/api/v2rpc"
 
-	"github.com/kubewharf/kubebrain/pkg/backend"
-	"github.com/kubewharf/kubebrain/pkg/storage"
 
 	"kbverif/lib"
 )
-
-const (
-	prefix  = "/r"
-	baseRev = 100
-)
-
-var compactKey = []byte(prefix + "/compact_key")
-
-// ---------- sequencer parking: one live backend at a time; sequencers of finished backends are parked ----------
-
-var (
-	epoch    int64
-	seqEpoch sync.Map
-)
-
-func installHook() {
-	backend.VerifYieldHook = func(point string) {
-		if point != "seq.idle" {
-			return
-		}
-		id := lib.GoID()
-		e, _ := seqEpoch.LoadOrStore(id, atomic.LoadInt64(&epoch))
-		if e.(int64) < atomic.LoadInt64(&epoch) {
-			select {} // backend finished: park its sequencer for good
-		}
-		time.Sleep(40 * time.Microsecond)
-	}
-}
-
-func retireBackends() {
-	time.Sleep(300 * time.Microsecond)
-	atomic.AddInt64(&epoch, 1)
-}
-
-// ---------- history ----------
-
-type op struct {
-	Kind string // create | update | delete
-	Key  []byte
-	Val  []byte
-	Prev uint64
-	Rev  uint64 // revision in the response header (allocated revision)
-	OK   bool
-	Err  string
-}
-
-func (o op) coq() string {
-	switch o.Kind {
-	case "create":
-		return lib.App("WCreate", lib.Bytes(o.Key), lib.Bytes(o.Val), lib.N(o.Rev), lib.Bool(o.OK))
-	case "update":
-		return lib.App("WUpdate", lib.Bytes(o.Key), lib.Bytes(o.Val), lib.N(o.Prev), lib.N(o.Rev), lib.Bool(o.OK))
-	default:
-		return lib.App("WDelete", lib.Bytes(o.Key), lib.N(o.Prev), lib.N(o.Rev), lib.Bool(o.OK))
-	}
-}
-func (o op) json() map[string]interface{} {
-	return map[string]interface{}{"op": o.Kind, "key": string(o.Key), "val": lib.Q(o.Val), "prev": o.Prev, "rev": o.Rev, "ok": o.OK, "err": o.Err}
-}
 
 type read struct {
 	Kind  string // get | list | count
 	A, B  []byte
 	Rev   uint64
 	Limit int64
-}
-
-type node struct {
-	b    backend.Backend
-	kv   storage.KvStorage
-	next uint64 // next revision the allocator will deal
-}
-
-func (n *node) settle() error {
-	want := n.next - 1
-	if !lib.WaitUntil(3*time.Second, func() bool { return n.b.GetCurrentRevision() >= want }) {
-		return fmt.Errorf("stalled: committed revision %d never reached %d", n.b.GetCurrentRevision(), want)
-	}
-	return nil
-}
-
-func (n *node) apply(o *op) error {
-	ctx := context.Background()
-	expect := n.next
-	n.next++
-	switch o.Kind {
-	case "create":
-		resp, err := n.b.Create(ctx, &proto.CreateRequest{Key: o.Key, Value: o.Val})
-		if err != nil {
-			o.Rev, o.OK, o.Err = expect, false, "err"
-		} else {
-			o.Rev, o.OK = resp.Header.Revision, resp.Succeeded
-		}
-	case "update":
-		resp, err := n.b.Update(ctx, &proto.UpdateRequest{Kv: &proto.KeyValue{Key: o.Key, Value: o.Val, Revision: o.Prev}})
-		if err != nil {
-			o.Rev, o.OK, o.Err = expect, false, "err"
-		} else {
-			o.Rev, o.OK = resp.Header.Revision, resp.Succeeded
-			if !o.OK {
-				o.Rev = expect // header may be max(allocated, latest); failed ops leave nothing behind
-			}
-		}
-	case "delete":
-		resp, err := n.b.Delete(ctx, &proto.DeleteRequest{Key: o.Key, Revision: o.Prev})
-		if err != nil {
-			o.Rev, o.OK, o.Err = expect, false, "err"
-		} else {
-			o.Rev, o.OK = resp.Header.Revision, resp.Succeeded
-			if !o.OK {
-				o.Rev = expect
-			}
-		}
-	}
-	if o.OK && o.Rev != expect {
-		return fmt.Errorf("%s %q: header revision %d, expected allocated revision %d", o.Kind, o.Key, o.Rev, expect)
-	}
-	return n.settle()
 }
 
 // ---------- responses as Coq terms ----------
@@ -171,7 +54,7 @@ type readOut struct {
 	kvs     int
 }
 
-func (n *node) doRead(r read) (out readOut) {
+func doRead(n *lib.RSNode, r read) (out readOut) {
 	ctx := context.Background()
 	defer func() {
 		if p := recover(); p != nil {
@@ -187,7 +70,7 @@ func (n *node) doRead(r read) (out readOut) {
 	}()
 	switch r.Kind {
 	case "get":
-		resp, err := n.b.Get(ctx, &proto.GetRequest{Key: r.A, Revision: r.Rev})
+		resp, err := n.B.Get(ctx, &proto.GetRequest{Key: r.A, Revision: r.Rev})
 		if err != nil {
 			return readOut{coq: lib.App("QGet", lib.Bytes(r.A), lib.N(r.Rev), "GetPanic"), outcome: "get-error"}
 		}
@@ -200,7 +83,7 @@ func (n *node) doRead(r read) (out readOut) {
 		}
 		return readOut{coq: lib.App("QGet", lib.Bytes(r.A), lib.N(r.Rev), lib.App("GetResp", lib.N(resp.Header.Revision), kv)), outcome: oc, kvs: k}
 	case "list":
-		resp, err := n.b.List(ctx, &proto.RangeRequest{Key: r.A, End: r.B, Revision: r.Rev, Limit: r.Limit})
+		resp, err := n.B.List(ctx, &proto.RangeRequest{Key: r.A, End: r.B, Revision: r.Rev, Limit: r.Limit})
 		var o string
 		oc := "list-ok"
 		k := 0
@@ -218,7 +101,7 @@ func (n *node) doRead(r read) (out readOut) {
 		}
 		return readOut{coq: lib.App("QList", lib.Bytes(r.A), lib.Bytes(r.B), lib.N(r.Rev), lib.Z(r.Limit), o), outcome: oc, kvs: k}
 	default:
-		resp, err := n.b.Count(ctx, &proto.CountRequest{Key: r.A, End: r.B})
+		resp, err := n.B.Count(ctx, &proto.CountRequest{Key: r.A, End: r.B})
 		if err != nil {
 			return readOut{coq: lib.App("QCount", lib.Bytes(r.A), lib.Bytes(r.B), "CErr"), outcome: "count-err"}
 		}
@@ -226,132 +109,52 @@ func (n *node) doRead(r read) (out readOut) {
 	}
 }
 
-// ---------- generation ----------
-
-var keyPool = []string{"/r/a", "/r/a/b", "/r/a-b", "/r/ab", "/r/a/", "/r/b", "/r/a/b/c", "/r/a0", "/r/\xff", "/r/a\xff", "/r/a.b", "/r/%"}
-
-var valPool = [][]byte{[]byte("v1"), []byte("v2"), []byte("value-3"), {0}, {0xff}, {0xff, 0xff, 0x00}, []byte("tombston"), []byte("tombstone!"), []byte("x"), []byte("$"), {87, 251, 128, 139}}
-
-var marker = []byte("tombstone")
-
-func boundPool(keys []string) [][]byte {
-	out := [][]byte{[]byte("/r/"), []byte("/r0"), []byte("/"), []byte("0"), []byte("/r/a/"), []byte("/r/a0"), []byte("/r/a"), []byte("/r/b"), []byte("/r/a/b0"), []byte("/r/\xff\xff"), []byte("/r")}
-	for _, k := range keys {
-		out = append(out, []byte(k))
-		out = append(out, backend.PrefixEnd([]byte(k)))
-		out = append(out, append([]byte(k), '%')) // just after k, inside the alphabet
-	}
-	return out
-}
-
 type hist struct {
 	keys []string
-	ops1 []op
-	ops2 []op
+	ops1 []lib.RSOp
+	ops2 []lib.RSOp
 	// compaction request of phase 2: 0 = current, ^0 = none
 	compact uint64
 	nul     bool // use bounds with a trailing NUL (outside the documented alphabet)
 }
 
-type live struct {
-	rev  uint64
-	live bool
-}
-
-func genOps(r *lib.Rand, keys []string, st map[string]*live, next *uint64, n int, markerChance int) []op {
-	var ops []op
-	for i := 0; i < n; i++ {
-		k := keys[r.Intn(len(keys))]
-		s := st[k]
-		if s == nil {
-			s = &live{}
-			st[k] = s
-		}
-		val := valPool[r.Intn(len(valPool))]
-		if markerChance > 0 && r.Chance(1, markerChance) {
-			val = marker
-		}
-		var o op
-		c := r.Intn(10)
-		switch {
-		case !s.live && c < 7:
-			o = op{Kind: "create", Key: []byte(k), Val: val}
-		case !s.live && c < 8:
-			o = op{Kind: "delete", Key: []byte(k), Prev: 0} // missing key
-		case !s.live:
-			o = op{Kind: "update", Key: []byte(k), Val: val, Prev: uint64(baseRev + r.Intn(20))} // guarded update of a missing key
-		case c < 4:
-			o = op{Kind: "update", Key: []byte(k), Val: val, Prev: s.rev}
-		case c < 5:
-			o = op{Kind: "update", Key: []byte(k), Val: val, Prev: s.rev - 1} // stale
-		case c < 6:
-			o = op{Kind: "create", Key: []byte(k), Val: val} // exists
-		case c < 8:
-			o = op{Kind: "delete", Key: []byte(k), Prev: s.rev}
-		case c < 9:
-			o = op{Kind: "delete", Key: []byte(k), Prev: 0} // unconditional
-		default:
-			o = op{Kind: "delete", Key: []byte(k), Prev: s.rev + 1000} // wrong revision
-		}
-		// predicted effect (only used to steer generation; the real outcome is recorded)
-		rev := *next
-		*next++
-		switch o.Kind {
-		case "create":
-			if !s.live {
-				s.live, s.rev = true, rev
-			}
-		case "update":
-			if s.live && o.Prev == s.rev {
-				s.rev = rev
-			}
-		case "delete":
-			if s.live && (o.Prev == 0 || o.Prev == s.rev) {
-				s.live = false
-			}
-		}
-		ops = append(ops, o)
-	}
-	return ops
-}
-
 func genHist(r *lib.Rand) hist {
 	nk := 3 + r.Intn(5)
-	perm := r.Perm(len(keyPool))
+	perm := r.Perm(len(lib.RSKeyPool))
 	var keys []string
 	for _, i := range perm[:nk] {
-		keys = append(keys, keyPool[i])
+		keys = append(keys, lib.RSKeyPool[i])
 	}
-	st := map[string]*live{}
-	next := uint64(baseRev + 1)
+	st := map[string]*lib.RSLive{}
+	next := uint64(lib.RSBaseRev + 1)
 	mc := 0
 	if r.Chance(1, 12) {
 		mc = 6
 	}
 	h := hist{keys: keys}
-	h.ops1 = genOps(r, keys, st, &next, 4+r.Intn(14), mc)
-	h.ops2 = genOps(r, keys, st, &next, r.Intn(7), mc)
+	h.ops1 = lib.RSGenOps(r, keys, st, &next, 4+r.Intn(14), mc)
+	h.ops2 = lib.RSGenOps(r, keys, st, &next, r.Intn(7), mc)
 	switch r.Intn(6) {
 	case 0:
 		h.compact = math.MaxUint64 // none
 	case 1, 2:
 		h.compact = 0 // current
 	default:
-		h.compact = uint64(baseRev + 1 + r.Intn(len(h.ops1)+len(h.ops2)+1))
+		h.compact = uint64(lib.RSBaseRev + 1 + r.Intn(len(h.ops1)+len(h.ops2)+1))
 	}
 	return h
 }
 
-func genReads(r *lib.Rand, h hist, ops []op, cur uint64, quick bool) []read {
+func genReads(r *lib.Rand, h hist, ops []lib.RSOp, cur uint64, quick bool) []read {
 	var reads []read
-	revs := []uint64{0, cur, baseRev + 1, baseRev}
+	revs := []uint64{0, cur, lib.RSBaseRev + 1, lib.RSBaseRev}
 	for i := 0; i < 3; i++ {
-		revs = append(revs, uint64(baseRev+1+r.Intn(int(cur-baseRev)+1)))
+		revs = append(revs, uint64(lib.RSBaseRev+1+r.Intn(int(cur-lib.RSBaseRev)+1)))
 	}
 	if r.Chance(1, 4) {
 		revs = append(revs, cur+1+uint64(r.Intn(3))) // not yet readable: model agreement only
 	}
-	bounds := boundPool(h.keys)
+	bounds := lib.RSBoundPool(h.keys)
 	if h.nul {
 		for _, k := range h.keys {
 			bounds = append(bounds, append([]byte(k), 0))
@@ -447,17 +250,16 @@ func runHist(engine, scratch string, h hist, rr *lib.Rand, kind string, quick, f
 		return
 	}
 	defer closer()
-	b := backend.NewBackend(kv, backend.Config{Prefix: prefix, Identity: "c03", EnableEtcdCompatibility: true, WatchCacheSize: 64}, &lib.NopMetrics{})
-	defer retireBackends()
-	b.SetCurrentRevision(baseRev)
-	n := &node{b: b, kv: kv, next: baseRev + 1}
+	n := lib.NewRSNode(kv, "c03")
+	defer lib.RSRetire()
+	b := n.B
 	jsonCase := map[string]interface{}{"engine": engine, "keys": h.keys}
 	fail := func(what string) caseOut {
 		res.failure = &lib.ImplFailure{What: what, Case: jsonCase}
 		return res
 	}
 	for i := range h.ops1 {
-		if err := n.apply(&h.ops1[i]); err != nil {
+		if err := n.Apply(&h.ops1[i]); err != nil {
 			return fail(err.Error())
 		}
 	}
@@ -469,12 +271,12 @@ func runHist(engine, scratch string, h hist, rr *lib.Rand, kind string, quick, f
 	reads := genReads(rr, h, h.ops1, cur1, quick)
 	outs1 := make([]readOut, len(reads))
 	for i, r := range reads {
-		outs1[i] = n.doRead(r)
+		outs1[i] = doRead(n, r)
 		res.outcomes[outs1[i].outcome]++
 	}
 	// phase 2
 	for i := range h.ops2 {
-		if err := n.apply(&h.ops2[i]); err != nil {
+		if err := n.Apply(&h.ops2[i]); err != nil {
 			return fail(err.Error())
 		}
 	}
@@ -503,17 +305,17 @@ func runHist(engine, scratch string, h hist, rr *lib.Rand, kind string, quick, f
 	outs2 := make([]readOut, len(reads2))
 	found := 0
 	for i, r := range reads2 {
-		outs2[i] = n.doRead(r)
+		outs2[i] = doRead(n, r)
 		res.outcomes[outs2[i].outcome]++
 	}
 	for _, o := range outs1 {
 		found += o.kvs
 	}
 	okw := 0
-	ops := func(l []op) string {
+	ops := func(l []lib.RSOp) string {
 		xs := make([]string, len(l))
 		for i, o := range l {
-			xs[i] = o.coq()
+			xs[i] = o.Coq()
 			if o.OK {
 				okw++
 				res.outcomes["write-ok-"+o.Kind]++
@@ -524,13 +326,13 @@ func runHist(engine, scratch string, h hist, rr *lib.Rand, kind string, quick, f
 		return lib.List(xs)
 	}
 	o1, o2 := ops(h.ops1), ops(h.ops2)
-	coq := lib.App("mk_c03", lib.Bytes(compactKey), "true", o1, "\n "+coqPhase(dump1, cur1, outs1), "\n "+o2, lib.N(floor), "\n "+coqPhase(dump2, cur2, outs2))
+	coq := lib.App("mk_c03", lib.Bytes(lib.RSCompactKey), "true", o1, "\n "+coqPhase(dump1, cur1, outs1), "\n "+o2, lib.N(floor), "\n "+coqPhase(dump2, cur2, outs2))
 	var jo1, jo2 []interface{}
 	for _, o := range h.ops1 {
-		jo1 = append(jo1, o.json())
+		jo1 = append(jo1, o.JSON())
 	}
 	for _, o := range h.ops2 {
-		jo2 = append(jo2, o.json())
+		jo2 = append(jo2, o.JSON())
 	}
 	jsonCase["ops1"], jsonCase["ops2"] = jo1, jo2
 	jsonCase["compact_request"], jsonCase["floor"] = h.compact, floor
@@ -555,32 +357,34 @@ func runHist(engine, scratch string, h hist, rr *lib.Rand, kind string, quick, f
 // ---------- fixed corpus ----------
 
 func corpus() []hist {
-	c := func(k string, v []byte) op { return op{Kind: "create", Key: []byte(k), Val: v} }
-	u := func(k string, v []byte, prev uint64) op { return op{Kind: "update", Key: []byte(k), Val: v, Prev: prev} }
-	d := func(k string, prev uint64) op { return op{Kind: "delete", Key: []byte(k), Prev: prev} }
+	c := func(k string, v []byte) lib.RSOp { return lib.RSOp{Kind: "create", Key: []byte(k), Val: v} }
+	u := func(k string, v []byte, prev uint64) lib.RSOp {
+		return lib.RSOp{Kind: "update", Key: []byte(k), Val: v, Prev: prev}
+	}
+	d := func(k string, prev uint64) lib.RSOp { return lib.RSOp{Kind: "delete", Key: []byte(k), Prev: prev} }
 	x := []byte("x")
 	return []hist{
-		// C03-F1: a created value equal to the reserved deletion marker is lost
-		{keys: []string{"/r/a", "/r/b"}, ops1: []op{c("/r/a", marker), c("/r/b", x)}, ops2: []op{c("/r/ab", x)}, compact: math.MaxUint64},
+		// C03-F1: a created value equal to the reserved deletion lib.RSMarker is lost
+		{keys: []string{"/r/a", "/r/b"}, ops1: []lib.RSOp{c("/r/a", lib.RSMarker), c("/r/b", x)}, ops2: []lib.RSOp{c("/r/ab", x)}, compact: math.MaxUint64},
 		// the same through an update, then overwritten; compaction at the current revision
-		{keys: []string{"/r/a", "/r/b"}, ops1: []op{c("/r/a", x), u("/r/a", marker, 101), c("/r/b", marker)}, ops2: []op{u("/r/a", []byte("y"), 102)}, compact: 0},
+		{keys: []string{"/r/a", "/r/b"}, ops1: []lib.RSOp{c("/r/a", x), u("/r/a", lib.RSMarker, 101), c("/r/b", lib.RSMarker)}, ops2: []lib.RSOp{u("/r/a", []byte("y"), 102)}, compact: 0},
 		// prefix-related names, several versions, deletes, re-creation
 		{keys: []string{"/r/a", "/r/a/b", "/r/a-b", "/r/ab", "/r/a/"},
-			ops1: []op{c("/r/a", x), c("/r/a/b", x), c("/r/a-b", x), c("/r/ab", x), c("/r/a/", x), u("/r/a", []byte("x2"), 101), d("/r/a/b", 0), u("/r/ab", []byte{0xff}, 104), c("/r/a/b", []byte("again")), d("/r/a-b", 103)},
-			ops2: []op{d("/r/a", 0), c("/r/a", []byte("new")), u("/r/a/", []byte("z"), 105)}, compact: 108},
+			ops1: []lib.RSOp{c("/r/a", x), c("/r/a/b", x), c("/r/a-b", x), c("/r/ab", x), c("/r/a/", x), u("/r/a", []byte("x2"), 101), d("/r/a/b", 0), u("/r/ab", []byte{0xff}, 104), c("/r/a/b", []byte("again")), d("/r/a-b", 103)},
+			ops2: []lib.RSOp{d("/r/a", 0), c("/r/a", []byte("new")), u("/r/a/", []byte("z"), 105)}, compact: 108},
 		// failed writes only after one success
-		{keys: []string{"/r/a", "/r/b"}, ops1: []op{c("/r/a", x), c("/r/a", x), u("/r/a", x, 55), d("/r/b", 0), u("/r/b", x, 101), d("/r/a", 77)}, ops2: []op{u("/r/a", x, 1 << 40)}, compact: 0},
+		{keys: []string{"/r/a", "/r/b"}, ops1: []lib.RSOp{c("/r/a", x), c("/r/a", x), u("/r/a", x, 55), d("/r/b", 0), u("/r/b", x, 101), d("/r/a", 77)}, ops2: []lib.RSOp{u("/r/a", x, 1<<40)}, compact: 0},
 		// range bounds with a trailing NUL (Kubernetes' continue keys), outside the documented alphabet
-		{keys: []string{"/r/a", "/r/a/b", "/r/b"}, ops1: []op{c("/r/a", x), c("/r/a/b", x), c("/r/b", x)}, ops2: nil, compact: math.MaxUint64, nul: true},
+		{keys: []string{"/r/a", "/r/a/b", "/r/b"}, ops1: []lib.RSOp{c("/r/a", x), c("/r/a/b", x), c("/r/b", x)}, ops2: nil, compact: math.MaxUint64, nul: true},
 		// delete, compaction above the delete, re-creation
-		{keys: []string{"/r/a", "/r/b"}, ops1: []op{c("/r/a", x), c("/r/b", x), d("/r/a", 101), u("/r/b", []byte("b2"), 102)}, ops2: []op{c("/r/a", []byte("back")), d("/r/b", 0)}, compact: 104},
+		{keys: []string{"/r/a", "/r/b"}, ops1: []lib.RSOp{c("/r/a", x), c("/r/b", x), d("/r/a", 101), u("/r/b", []byte("b2"), 102)}, ops2: []lib.RSOp{c("/r/a", []byte("back")), d("/r/b", 0)}, compact: 104},
 	}
 }
 
 func main() {
 	lib.QuietLogs()
 	args := lib.ParseArgs()
-	installHook()
+	lib.RSInstallHook()
 	rnd := lib.NewRand(args.Seed)
 	nh := 110
 	engines := []string{lib.EngMem}
@@ -592,7 +396,7 @@ func main() {
 	case "search":
 		nh = 400
 	}
-	w := lib.NewWriter(args, "C03", "c03", "From KB Require Import Model.C03Cases.", "c03_case", "c03_check", "c03_oracle", 40)
+	w := lib.NewWriter(args, "C03", "c03", "From KB Require Import Model.C03Cases.", "c03_case", "c03_check", "c03_oracle", 10)
 	totalReads := 0
 	run := func(h hist, seed uint64, kind string) {
 		for ei, e := range engines {
@@ -600,8 +404,8 @@ func main() {
 				continue
 			}
 			hc := h
-			hc.ops1 = append([]op{}, h.ops1...)
-			hc.ops2 = append([]op{}, h.ops2...)
+			hc.ops1 = append([]lib.RSOp{}, h.ops1...)
+			hc.ops2 = append([]lib.RSOp{}, h.ops2...)
 			full := args.Only >= 0 && args.Only == w.Len()
 			out := runHist(e, args.Scratch, hc, lib.NewRand(seed), kind, quick, full)
 			if out.failure != nil {
